@@ -352,8 +352,13 @@ class World:
         k = op["op"]
         items = [self.item(i) for i in op.get("items", [])]
         clone = any(i.get("clone") for i in op.get("items", []))
+        import contextlib
+
+        # detach / merge_text_nodes are also called under the library's default filters (comments and processing
+        # instructions hidden): the edit must be the same
+        ambient = contextlib.nullcontext if op.get("ambient") == "default" else altered_default_filters
         try:
-            with altered_default_filters():
+            with ambient():
                 if k == "add_following":
                     r = o.add_following_siblings(*items, clone=clone)
                 elif k == "add_preceding":
@@ -422,8 +427,20 @@ def gen_item_def_child(rng, depth):
     return {"def": [rng.choice(["n", "m"]), [], children]}
 
 
+# detaching and merging are named by C08 as giving the same result under any ambient filters; calls that address positions
+# among siblings (indexes, "the sibling before", "the last child") follow the caller's filters by design and stay unfiltered
+AMBIENT_FREE = ("detach", "merge")
+
+
 def gen_op(rng, mirror: Mirror):
     """a Legal edit for the current state (no rejected operations, no empty text, no cycles)"""
+    op = gen_op_plain(rng, mirror)
+    if op.get("op") in AMBIENT_FREE and rng.random() < 0.4:
+        op["ambient"] = "default"
+    return op
+
+
+def gen_op_plain(rng, mirror: Mirror):
     for _ in range(50):
         if rng.random() < 0.07:
             return {"create": rng.choice([
